@@ -168,15 +168,39 @@ def enum_cases():
     """finite vocabularies: every documented value is accepted, anything else refused"""
     system = lambda: RDSystem(network=net2(), space=RDGridSpace(w=2))
     out = []
-    for v, ok in [("reflecting", True), ("periodical", True), ("periodic", False), ("", False), ("Reflecting", False), (1, False)]:
-        out.append(("boundary-condition", v, ok, lambda v=v: RDGridSpace(w=2, boundary_conditions={"x": v})))
-        out.append(("boundary-condition(dict)", v, ok, lambda v=v: rdspace_from_dict({"w": 2, "boundary_conditions": {"y": v}})))
-    for v, ok in [("x", True), ("y", True), ("z", True), ("w", False), ("X", False), ("", False)]:
+    from strengths import simulate
+
+    def setter(obj, attr, v):
+        setattr(obj, attr, v)
+
+    script_dict = lambda **kw: dict({"system": {"network": {"species": [{"label": "A"}], "reactions": []}, "space": {"w": 2}},
+                                     "t_sample": [0, 1]}, **kw)
+    # every entry point through which the value can arrive: constructor, setter / set_ method, dictionary reader, simulate()
+    for v, ok in [("reflecting", True), ("periodical", True), ("periodic", False), ("", False), ("Reflecting", False), (1, False), (None, False)]:
+        for ax in ("x", "y", "z"):
+            out.append(("boundary-condition", [ax, v], ok, lambda v=v, ax=ax: RDGridSpace(w=2, boundary_conditions={ax: v})))
+            out.append(("boundary-condition(set)", [ax, v], ok, lambda v=v, ax=ax: RDGridSpace(w=2).set_boundary_conditions({ax: v})))
+            out.append(("boundary-condition(dict)", [ax, v], ok, lambda v=v, ax=ax: rdspace_from_dict({"w": 2, "boundary_conditions": {ax: v}})))
+            out.append(("boundary-condition(system dict)", [ax, v], ok, lambda v=v, ax=ax: rdsystem_from_dict(
+                {"network": {"species": [{"label": "A"}], "reactions": []}, "space": {"w": 2, "boundary_conditions": {ax: v}}})))
+    for v, ok in [("x", True), ("y", True), ("z", True), ("w", False), ("X", False), ("", False), (0, False)]:
         out.append(("boundary-axis", v, ok, lambda v=v: RDGridSpace(w=2, boundary_conditions={v: "periodical"})))
-    for v, ok in [("on_t_sample", True), ("on_iteration", True), ("on_interval", True), ("no_sampling", True), ("on_sample", False), ("", False), (None, False)]:
+        out.append(("boundary-axis(set)", v, ok, lambda v=v: RDGridSpace(w=2).set_boundary_conditions({v: "periodical"})))
+        out.append(("boundary-axis(dict)", v, ok, lambda v=v: rdspace_from_dict({"w": 2, "boundary_conditions": {v: "reflecting"}})))
+    for v, ok in [("on_t_sample", True), ("on_iteration", True), ("on_interval", True), ("no_sampling", True), ("on_sample", False), ("", False),
+                  (None, False), ("ON_T_SAMPLE", False), (1, False)]:
         out.append(("sampling-policy", v, ok, lambda v=v: RDScript(system(), [0, 1], sampling_policy=v)))
-    for v, ok in [("auto", True), ("none", True), ("Poisson", True), ("redist", True), ("poisson", False), ("floor", False), ("", False), (0, False)]:
+        out.append(("sampling-policy(setter)", v, ok, lambda v=v: setter(RDScript(system(), [0, 1]), "sampling_policy", v)))
+        out.append(("sampling-policy(dict)", v, ok, lambda v=v: rdscript_from_dict(script_dict(sampling_policy=v))))
+        out.append(("sampling-policy(simulate)", v, ok, lambda v=v: simulate(system(), [0, 0.01], engine=build.make_engine("euler", lib=build.load("plain")),
+                                                                              time_step=0.01, sampling_policy=v)))
+    for v, ok in [("auto", True), ("none", True), ("Poisson", True), ("redist", True), ("poisson", False), ("floor", False), ("", False), (0, False),
+                  (None, False)]:
         out.append(("init-state-processing", v, ok, lambda v=v: RDScript(system(), [0, 1], init_state_processing=v)))
+        out.append(("init-state-processing(setter)", v, ok, lambda v=v: setter(RDScript(system(), [0, 1]), "init_state_processing", v)))
+        out.append(("init-state-processing(dict)", v, ok, lambda v=v: rdscript_from_dict(script_dict(init_state_processing=v))))
+        out.append(("init-state-processing(simulate)", v, ok, lambda v=v: simulate(system(), [0, 0.01], engine=build.make_engine("euler", lib=build.load("plain")),
+                                                                                    time_step=0.01, init_state_processing=v)))
     for v, ok in [("grid", True), ("graph", False), ("mesh", False), ("", False)]:   # 'graph' without nodes/edges is incomplete
         out.append(("space-type", v, ok, lambda v=v: rdspace_from_dict({"type": v})))
     for v, ok in [(["a"], True), (["a", "b"], True), ([""], True), ([], False), (["default"], False), (["a", "default"], False), ("a", False), ([1], False)]:
